@@ -27,7 +27,7 @@ RULE = (
     "nested scope whose suspended disposable enter is cancelled; "
     "non-trivial = some child runs in another task than its parent"
 )
-RULE += ' Rounds 10-11: 4-node trees with two task-placed nodes; stars with 4-9 (12) children and chains of 5-8 (10) scopes; nested scopes given an own trace id / logger.'
+RULE += ' Rounds 10-11: 4-node trees with two task-placed nodes; stars with 4-9 (12) children and chains of 5-8 (10) scopes; nested scopes given an own trace id / logger. Round 15: a clean-up scope opened in the cancellation handler of a cancelled task-placed scope.'
 ASSUMPTIONS = [
     "a scope nested under X counts for X's completion if it was created before X's callback fired "
     "(not if it was created after X was left, within the run of the loop in which X completed: the "
@@ -115,6 +115,21 @@ def programs(tier: str):
         }
         yield {
             "tree": {"kind": "a", "place": "root", "c": [{"kind": "a", "place": place, "c": [{"kind": "s", "place": "inline", "c": []}]}]},
+            "cb": "sync",
+            "cancel_body": 1,
+        }
+    # clean-up scopes: the cancelled body of a task-placed scope opens a further scope in its
+    # cancellation handler (the task still carries the cancellation request) before it is left
+    for place in ("spawn", "create"):
+        for ck in ("a", "s"):
+            for rk in ("a", "s"):
+                yield {
+                    "tree": {"kind": rk, "place": "root", "c": [{"kind": "a", "place": place, "c": [], "cleanup": {"kind": ck, "place": "inline", "c": []}}]},
+                    "cb": "alt" if ck == "a" else "sync",
+                    "cancel_body": 1,
+                }
+        yield {
+            "tree": {"kind": "a", "place": "root", "c": [{"kind": "a", "place": place, "c": [{"kind": "s", "place": "inline", "c": []}], "cleanup": {"kind": "a", "place": "inline", "c": [{"kind": "a", "place": "inline", "c": []}]}}]},
             "cb": "sync",
             "cancel_body": 1,
         }
@@ -222,6 +237,8 @@ def execute(program, ch: Chooser) -> Result:  # noqa: C901, PLR0915
         nodes[t["id"]] = {"parent": parent, "spec": t, "created": None, "entered": None, "exited": None, "cbs": [], "metrics": None}
         for c in t["c"]:
             number(c, t["id"])
+        if t.get("cleanup"):
+            number(t["cleanup"], t["id"])
 
     number(program["tree"], None)
 
@@ -341,6 +358,9 @@ def execute(program, ch: Chooser) -> Result:  # noqa: C901, PLR0915
         except asyncio.CancelledError as exc:
             exc_info = (type(exc), exc, exc.__traceback__)
             events.append(("body-cancelled", nid))
+            if t.get("cleanup"):
+                entering[f"n{nid}"] = False
+                await node(t["cleanup"])
         entering[f"n{nid}"] = False
         events.append(("exit-start", nid))
         try:
